@@ -159,7 +159,7 @@ def same_failure(case, backend, f, coq_ok=True):
         v = {}
         if f["kind"] in ("names", "rows") and coq_ok:
             v, _ = pipecheck.eval_cases("shr", [c], obs)
-        fs = failure_of(obs[0]["polars"], obs[0]["sqlite"], v, 0)
+        fs = failure_of(obs[0]["polars"], obs[0].get("sqlite"), v, 0)
         return any(b == backend and g["kind"] == f["kind"] and g.get("exc") == f.get("exc") for b, g in fs)
     return pred
 
@@ -276,6 +276,8 @@ def run(ctx, res, prop, profile, n_quick=300, n_thorough=4000, probe_ids=(), ext
             continue
         seen_sig.add(sig)
         so = pipecheck.observe_all([small])[0]
+        if b not in so:
+            continue
         payload = {"case": small, "backend": b, "failure": f, "origin": origin[i],
                    "observed": {k: v.to_json() for k, v in so.items()}}
         if f["kind"] in ("rows", "names") and ctx.build_ok and so[b].ast_coq:
